@@ -392,7 +392,7 @@ def concretize_type(t, reg: Registry):
     if tag == "final":
         return typing.Final[concretize_type(t[1], reg)]
     if tag == "annotated":
-        return typing.Annotated[concretize_type(t[1], reg), "verif-annotation"]
+        return typing.Annotated[concretize_type(t[1], reg), t[2] if len(t) > 2 else "verif-annotation"]
     if tag == "dc":
         return _dc_class(t, reg)
     if tag in ("tvarc", "tvarb"):
